@@ -87,12 +87,21 @@ and leaves exactly the rest — for all strings (any Unicode, newlines, `#`, `;`
 theorem C07_lex_quote (s rest : List Char) : lexString (quote s ++ rest) = some (s, rest) := by
   simp [lexString, quote, surrounded, scan_escape, unescape_escape]
 
-/-- **C07, per position**: a string held at any of the string-bearing positions is read back
-unchanged from the printed text. -/
-theorem C07_position (p : Pos) (s : List Char) : readAt p (printAt p s) = some s := by
-  have h : (printAt p s).drop p.pre.length = quote s ++ p.post := by
-    simp [printAt]
-  simp [readAt, h, C07_lex_quote]
+/-- **C07, for every template**: whatever fixed text surrounds the quoted string (any prefix, any
+suffix — in particular the header and indentation of an enclosing DEFCAL / DEFCAL MEASURE /
+DEFCIRCUIT body), the string is read back unchanged. -/
+theorem C07_template (t : Template) (s : List Char) : t.read (t.print s) = some s := by
+  have h : (t.print s).drop t.pre.length = quote s ++ t.post := by
+    simp [Template.print]
+  simp [Template.read, h, C07_lex_quote]
+
+/-- **C07, per position and placement**. -/
+theorem C07_position_placed (pl : Place) (p : Pos) (s : List Char) :
+    (template pl p).read ((template pl p).print s) = some s := C07_template _ s
+
+/-- **C07, per position** (top level). -/
+theorem C07_position (p : Pos) (s : List Char) : readAt p (printAt p s) = some s :=
+  C07_template _ s
 
 /-- the printed form is injective: distinct strings never print alike -/
 theorem C07_quote_injective (s t : List Char) (h : quote s = quote t) : s = t := by
